@@ -240,7 +240,14 @@ func worker(trees [][]entry, cfgs []cfg, g, n int) {
 		fmt.Printf("AT tree [%s]\n", treeString(tree))
 		results := map[flags]map[string]string{}
 		for _, c := range cfgs {
-			root := filepath.Join(base, "proj")
+			if (c.rootName != "" || c.chdir) && len(tree) > 1 && i%9 != 0 {
+				continue // the project directory's own name: every single-entry tree and every ninth larger one
+			}
+			rootName := c.rootName
+			if rootName == "" {
+				rootName = "proj"
+			}
+			root := filepath.Join(base, rootName)
 			os.RemoveAll(base)
 			before := build(root, tree, c.fl)
 			want, mustFail := expect(before, c.fl)
@@ -252,6 +259,12 @@ func worker(trees [][]entry, cfgs []cfg, g, n int) {
 				}
 			}
 			path += c.suffix
+			if c.chdir {
+				if err := os.Chdir(root); err != nil {
+					violation("harness", "chdir: "+err.Error())
+				}
+				path = "."
+			}
 			err := generatecmd.Run(context.Background(), quiet, generatecmd.Arguments{Path: path, WorkerCount: c.workers, KeepOrphanedFiles: c.fl.keep, Lazy: c.fl.lazy, IncludeVersion: c.fl.version})
 			runs++
 			if mustFail {
@@ -267,6 +280,12 @@ func worker(trees [][]entry, cfgs []cfg, g, n int) {
 			}
 			if c.suffix != "" {
 				where += " path=<project>" + c.suffix
+			}
+			if c.rootName != "" {
+				where += " project-directory-name=" + c.rootName
+			}
+			if c.chdir {
+				where += " run-inside-the-project-directory(path=.)"
 			}
 			if (err != nil) != mustFail {
 				violation("exit-status", fmt.Sprintf("%s: Run returned %v, a file that cannot be generated present: %v", where, err, mustFail))
@@ -299,6 +318,10 @@ type cfg struct {
 	workers int
 	symlink bool // the path given to the command is a symbolic link to the project directory
 	suffix  string // appended to the (absolute) path: the same directory spelled in an unclean way
+	// rootName: the name of the project directory itself ("" = proj). The rule for skipped directories is about the
+	// directories inside the tree; the directory the command is asked to process may be called _site or vendor.
+	rootName string
+	chdir    bool // the command runs inside the project directory with the path "."
 }
 
 func main() {
@@ -474,13 +497,17 @@ func treesAndConfigs(thorough bool) ([][]entry, []cfg) {
 	for _, k := range []bool{false, true} {
 		for _, l := range []bool{false, true} {
 			for _, v := range []bool{false, true} {
-				cfgs = append(cfgs, cfg{flags{k, l, v}, 2, false, ""})
+				cfgs = append(cfgs, cfg{fl: flags{k, l, v}, workers: 2, symlink: false, suffix: ""})
 			}
 		}
 	}
-	cfgs = append(cfgs, cfg{flags{}, 1, false, ""}, cfg{flags{}, 4, false, ""}, cfg{flags{true, true, false}, 1, false, ""}, cfg{flags{true, true, false}, 4, false, ""})
-	cfgs = append(cfgs, cfg{flags{}, 2, true, ""}, cfg{flags{false, true, true}, 1, true, ""})
-	cfgs = append(cfgs, cfg{flags{}, 2, false, "/"}, cfg{flags{}, 1, false, "/."}, cfg{flags{true, false, false}, 2, false, "//"})
+	cfgs = append(cfgs, cfg{fl: flags{}, workers: 1, symlink: false, suffix: ""}, cfg{fl: flags{}, workers: 4, symlink: false, suffix: ""}, cfg{fl: flags{true, true, false}, workers: 1, symlink: false, suffix: ""}, cfg{fl: flags{true, true, false}, workers: 4, symlink: false, suffix: ""})
+	cfgs = append(cfgs, cfg{fl: flags{}, workers: 2, symlink: true, suffix: ""}, cfg{fl: flags{false, true, true}, workers: 1, symlink: true, suffix: ""})
+	cfgs = append(cfgs, cfg{fl: flags{}, workers: 2, symlink: false, suffix: "/"}, cfg{fl: flags{}, workers: 1, symlink: false, suffix: "/."}, cfg{fl: flags{true, false, false}, workers: 2, symlink: false, suffix: "//"})
+	for _, rn := range []string{"_site", ".hidden", "vendor", "node_modules"} {
+		cfgs = append(cfgs, cfg{fl: flags{}, workers: 2, rootName: rn}, cfg{fl: flags{}, workers: 1, rootName: rn, chdir: true})
+	}
+	cfgs = append(cfgs, cfg{fl: flags{}, workers: 2, chdir: true})
 	return trees, cfgs
 }
 
